@@ -1,7 +1,7 @@
 """C01 Compiled code computes what the source program says (sequential core).
 Decided by spec/Refine.tla: Agree between the Sphinx machine on the real compiler output and HiDSem."""
 import time
-from hv import common, rt, families
+from hv import common, rt, families, fam_seq
 
 PROP = 'C01'
 ASSUME = ['Sphinx ISA as reconstructed (A1)', 'assembler directive syntax (A2)',
@@ -14,10 +14,13 @@ def main(tier, seed):
     quick = tier == 'quick'
     items = []
     items += families.generated(seed, 110 if quick else 900, w=2, s=300, inputs=3)
-    otherw = [3, 4, 8][seed % 3]
-    for w in ([otherw] if quick else [3, 4, 8]):
-        items += families.generated(seed + 1, 14 if quick else 60, w=w, s=300, inputs=2, family='gen_w%d' % w)
+    # 24-bit words always (the only size that is not a power of two), plus one of 32/64 bits by seed
+    for w in ([3, [4, 8][seed % 2]] if quick else [3, 4, 8]):
+        items += families.generated(seed + 1, 10 if quick else 60, w=w, s=300, inputs=2, family='gen_w%d' % w)
     items += families.examples(names={'hello'})
+    items += fam_seq.bool_structure(seed, tier)
+    items += fam_seq.eval_order(seed, tier)
+    items += fam_seq.layout(seed, tier)
     # minimum + 1 word stacks for a few programs
     n_tight = 8 if quick else 60
     tight = []
@@ -33,6 +36,7 @@ def main(tier, seed):
     if st.cases == 0:
         raise common.Machinery('no case was judged')
     vs = rt.violations(PROP, items)
-    cov = st.coverage({'rule': 'seeded type-directed random programs without time travel x argument grid; W=2 plus '
-                               'W in {3,4,8}; generous and minimum+1 stacks', 'exhaustive': False})
+    cov = st.coverage({'rule': 'seeded type-directed random programs without time travel x argument grid; enumerated boolean formulas '
+                               '(depth <= 2) in every usage position; evaluation-order / operand-preservation cases; array layout programs; '
+                               'W=2, 3 and one of {4,8} (thorough: all); generous and minimum+1 stacks', 'exhaustive': False})
     return common.finish(PROP, tier, seed, 'model_checking', cov, vs, t0, ASSUME)
